@@ -375,7 +375,7 @@ GRIisspecial_type(int32 file_id, uint16 tag, uint16 ref)
     aid = Hstartread(file_id, tag, ref);
 
     /* get the access_rec pointer */
-    access_rec = HAatom_object(aid);
+    access_rec = HIaid2rec(aid);
     if (access_rec == NULL)
         HGOTO_ERROR(DFE_ARGS, FAIL);
 
@@ -1977,7 +1977,7 @@ GRend(int32 grid)
         HGOTO_DONE(SUCCEED);
 
     hdf_file_id = gr_ptr->hdf_file_id;
-    file_rec    = HAatom_object(hdf_file_id);
+    file_rec    = HIfid2rec(hdf_file_id);
 
     if (((file_rec->access) & DFACC_WRITE) != 0) {
         /* Check if the GR group exists, and create it if not */
